@@ -251,7 +251,11 @@ def shard_main(argv):
                         case = alt
                 except Exception:
                     pass
-            case = _shrink.shrink(case, still_fails, getattr(mod, "SHRINK_BUDGET", 1500))
+            if hasattr(mod, "shrink"):
+                # the check knows which reductions keep the case inside its generator's guarantees
+                case = mod.shrink(case, still_fails)
+            else:
+                case = _shrink.shrink(case, still_fails, getattr(mod, "SHRINK_BUDGET", 1500))
             o = holder["o"]
         result["failure"] = {"sig": o.failure.sig, "detail": o.failure.detail, "info": o.failure.info,
                              "case": enc(case)}
